@@ -15,7 +15,10 @@ from .sym import (SV, NONE, IntS, BoolS, BytesS, StrS, PyObj, sv_int, sv_bool, s
 HERE = os.path.dirname(os.path.abspath(__file__))
 SPEC_DIR = os.path.join(os.path.dirname(HERE), "spec")
 
-KIND_SORT = {"int": IntS, "bool": BoolS, "bytes": BytesS, "str": StrS, "obj": PyObj}
+OBJSEQ = z3.SeqSort(PyObj)
+KIND_SORT = {"int": IntS, "bool": BoolS, "bytes": BytesS, "str": StrS, "obj": PyObj, "objseq": OBJSEQ}
+FLOAT_ISZERO = z3.Function("FLOAT_ISZERO", IntS, BoolS)
+MSG_ISDEF = z3.Function("MSG_ISDEF", PyObj, BoolS)
 
 EXC_NAMES = {"ValueError", "EOFError", "KeyError", "TypeError", "AttributeError", "NotImplementedError",
              "StopAsyncIteration", "StopIteration", "IndexError", "RuntimeError", "AssertionError",
@@ -52,6 +55,8 @@ OBJ_DSL = {
     "is_list": lambda t: sv_bool(PyObj.is_PList(t)),
     "is_dict": lambda t: sv_bool(PyObj.is_PDict(t)),
     "is_enum": lambda t: sv_bool(PyObj.is_PEnum(t)),
+    "float_is_zero": lambda t: sv_bool(FLOAT_ISZERO(PyObj.pfloat(t))),
+    "msg_is_default": lambda t: sv_bool(MSG_ISDEF(t)),
 }
 
 
@@ -88,6 +93,8 @@ class SpecLib:
                 self.consts[node.targets[0].id] = getattr(mod, node.targets[0].id)
 
     def has(self, name):
+        if any(getattr(p, "spec_has", lambda n: False)(name) for p in self.plugins):
+            return True
         return (name in self.src or name in ("B", "EMPTY", "LEN") or name in OBJ_DSL
                 or name in getattr(self, "consts", {}))
 
@@ -167,6 +174,9 @@ class SpecLib:
         raise ValueError(f"spec result kind {v.kind} != {k}")
 
     def call(self, ex, name, pos, st):
+        for p in self.plugins:
+            if getattr(p, "spec_has", lambda n: False)(name):
+                return p.spec_call(ex, name, pos, st)
         if name == "B":
             return sv_bytes(z3.Unit(ex.as_int(pos[0], st)))
         if name == "LEN":
@@ -306,6 +316,9 @@ class SpecLib:
                 return
             if v.kind == "tuple":
                 yield st, sv_int(len(v.t))
+                return
+            if v.kind == "objseq":
+                yield st, sv_int(z3.Length(v.t))
                 return
             raise Unsupported(f"len of {v.kind}")
         if name == "bool":
